@@ -529,7 +529,9 @@ def respell(tree, ann, rng, kinds):
             parts.append(rng.choice([" ", "\n"]))
 
         new_ns = [[p, u] for p, u in scope.items() if not (p is None and u == "")]
-        new_node = {"q": n["q"], "a": [[k, v] for _an, v, k in allitems if k is not None], "ns": new_ns, "t": nt, "c": [], "tl": n["tl"]}
+        new_node = {"q": n["q"], "a": [[k, v] for _an, v, k in allitems if k is not None], "ns": new_ns, "t": nt, "c": [], "tl": n["tl"],
+                    # the declarations written on this start tag, in document order ("" = the default namespace)
+                    "_d": [["" if an == "xmlns" else an[6:], v] for an, v, k in allitems if k is None]}
         new_parent_children.append(new_node)
 
         eligible = bool(a.get("elem_only")) and bool(n["c"]) and not (nt or "").strip()
@@ -643,6 +645,14 @@ def respell(tree, ann, rng, kinds):
              for k, v in files.items()}
     info["encoding"] = enc
     info["default_uri"] = default_uri
+
+    def xtree(m):
+        return {"d": m.get("_d", []), "q": m["q"], "a": m["a"], "s": "passed", "t": m["t"] or None,
+                "c": [xtree(c) for c in m["c"]], "tl": m["tl"] or None}
+
+    # the infoset with the declarations where they are written (the model's `XTree`); a document split
+    # with XInclude has no single tree of declarations
+    info["xtree"] = None if files else xtree(new_tree)
     return data, files, new_tree, info
 
 
